@@ -3,13 +3,16 @@ package seq
 import (
 	"berty.tech/go-ipfs-log/enc"
 	"bytes"
+	"crypto/rand"
 	"crypto/sha256"
 	"encoding/base64"
 	"encoding/hex"
 	"encoding/json"
 	"fmt"
+	"github.com/libp2p/go-libp2p/core/crypto"
 	"sort"
 	"strings"
+	"sync"
 
 	ipfslog "berty.tech/go-ipfs-log"
 	"berty.tech/go-ipfs-log/entry"
@@ -86,6 +89,10 @@ func faultValue(name string) interface{} {
 		return []interface{}{nil}
 	case "textlist":
 		return []interface{}{"x"}
+	case "key-ed25519-envelope", "key-rsa-envelope", "key-ecdsa-envelope", "key-secp-envelope":
+		// a well-formed public key of another algorithm (or of the right one) in libp2p's protobuf envelope, hex-encoded
+		// like the genuine raw key: something a key parser with a fallback would accept
+		return hex.EncodeToString(envelopedKey(name))
 	case "dupheads": // the genuine head listed twice
 		c12Init()
 		return []interface{}{link42(c12Head), link42(c12Head)}
@@ -122,7 +129,8 @@ func faultNames() []string {
 		n = append(n, f.name)
 	}
 	return append(n, "link", "badlink", "emptylink", "linklist", "badlinklist", "nulllist", "textlist", "b64", "b64n24", "b64n23", "b64n25", "b64long", "b64empty",
-		"cut0", "cut1", "cut2", "cut3", "cutlast", "grow1", "dupheads", "dupheads3", "headsplus")
+		"cut0", "cut1", "cut2", "cut3", "cutlast", "grow1", "dupheads", "dupheads3", "headsplus",
+		"key-ed25519-envelope", "key-rsa-envelope", "key-ecdsa-envelope", "key-secp-envelope")
 }
 
 // genericEntry mirrors the CBOR schema of a v2 entry as a generic value tree.
@@ -670,4 +678,35 @@ func init() {
 		}
 		c12One(p, c)
 	}})
+}
+
+var envelopeCache sync.Map
+
+// envelopedKey: a deterministic public key of the named algorithm, marshalled with libp2p's key envelope.
+func envelopedKey(name string) []byte {
+	if v, ok := envelopeCache.Load(name); ok {
+		return v.([]byte)
+	}
+	seed := bytes.NewReader(bytes.Repeat([]byte(name), 200))
+	var pub crypto.PubKey
+	var err error
+	switch name {
+	case "key-ed25519-envelope":
+		_, pub, err = crypto.GenerateEd25519Key(seed)
+	case "key-rsa-envelope":
+		_, pub, err = crypto.GenerateKeyPairWithReader(crypto.RSA, 2048, rand.Reader)
+	case "key-ecdsa-envelope":
+		_, pub, err = crypto.GenerateECDSAKeyPair(rand.Reader)
+	default:
+		_, pub, err = crypto.GenerateSecp256k1Key(rand.Reader)
+	}
+	if err != nil {
+		panic(err)
+	}
+	b, err := crypto.MarshalPublicKey(pub)
+	if err != nil {
+		panic(err)
+	}
+	envelopeCache.Store(name, b)
+	return b
 }
